@@ -158,6 +158,39 @@ func c04Tasks(tier string) []Task {
 			}})
 		}
 	}
+	// block family: batches whose flush (ONE write of several records, a running cursor) meets a 32 KiB block
+	// boundary - a staged record ending 3 bytes before / exactly on a block end with records behind it, a 3-block value
+	// as a non-first record. Cuts next to block boundaries and record ends (the C03 block filter)
+	blk := blockCfg()
+	pb := func(k, vc string, arg int) Op { return Op{K: "put", Key: k, VC: vc, Arg: arg} }
+	for bi, body := range [][]Op{
+		{pb("b", "B", 11), pb("a", "S", 0)},
+		{pb("b", "B", 8), pb("a", "S", 0), {K: "del", Key: "b"}},
+		{pb("a", "S", 0), pb("b", "M", 0)},
+		{pb("b", "B", 11), pb("a", "F", 40000)},
+	} {
+		body, bi := body, bi
+		tasks = append(tasks, Task{Level: "block-bodies", Name: fmt.Sprintf("%s block body#%d [%s]", blk, bi, traceString(body)), Fn: func(res *TaskResult) {
+			cutFilter = func(n, from, to int64) bool {
+				off := n % 32768
+				return off <= 16 || off >= 32768-16 || n-from <= 16 || to-n <= 16 || n%4096 == 0
+			}
+			defer func() { cutFilter = nil }()
+			for _, syncOpt := range []int{0, 1} {
+				for _, pre := range [][]Op{{}, {pb("a", "S", 0)}, {pb("b", "F", 20000)}} {
+					for _, post := range [][]Op{{}, {pb("a", "S", 0)}, {{K: "restart"}}} {
+						ops := append(append(append([]Op{}, pre...), Op{K: "batch", Sub: body, Arg: syncOpt}), post...)
+						announce(func() string { return blk.String() + " :: " + traceString(ops) })
+						if v := runC04(blk, keysAB, ops, len(pre), res); v != nil {
+							v.Prop = "C04"
+							res.Violations = append(res.Violations, *v)
+							return
+						}
+					}
+				}
+			}
+		}})
+	}
 	return tasks
 }
 
